@@ -69,7 +69,7 @@ class History:
     def existing_files(self):
         return [p for p in self.known if os.path.isfile(os.path.join(self.repo.dir, p))]
 
-    def op_write(self, p=None, fresh=True):
+    def op_write(self, p=None, fresh=True, allow_empty=True):
         if p is None:
             ex = self.existing_files()
             p = self.rng.pick(ex) if ex and self.rng.chance(1, 2) else self.pick_new_path()
@@ -77,8 +77,10 @@ class History:
         b = self.blob
         full = os.path.join(self.repo.dir, p)
         os.makedirs(os.path.dirname(full), exist_ok=True)
+        if allow_empty and self.rng.chance(1, 10):
+            b = 0          # an empty file: a file, with content (blob 0), not an absent path
         with open(full, "w") as f:
-            f.write("content %d\n" % b)
+            f.write("content %d\n" % b if b else "")
         if self.rng.chance(1, 4):
             # content that arrives with an old timestamp (cp -p, mv, tar x, rsync -t)
             old = time.time() - self.rng.pick([3600, 86400, 10 * 86400])
@@ -95,7 +97,8 @@ class History:
         d = self.rng.pick(DIRS)
         k = 0
         while k < n:
-            p = "%s/bulk%d/%s%03d.txt" % (d if k % 3 else self.rng.pick(DIRS), self.rng.below(4), self.rng.pick(["f", "F", "é", "a b"]), self.rng.below(1000))
+            p = "%s/bulk%d/%s%03d.txt" % (d if k % 3 else self.rng.pick(DIRS), self.rng.below(4),
+                                          self.rng.pick(["f", "F", "é", "a b", "données-éàü-变更-", "ファイル"]), self.rng.below(1000))
             if p in self.known:
                 continue
             self.op_write(p)
@@ -229,7 +232,7 @@ def model_ck(h, ck):
     if ck.get("pending") is not None:
         pend = {}
         for p, d in ck["pending"]:
-            pend[p] = hashlib.sha256(("content %d\n" % d).encode()).hexdigest() if d is not None else ""
+            pend[p] = hashlib.sha256((("content %d\n" % d) if d else "").encode()).hexdigest() if d is not None else ""
     return {"id": h.shas[ck["id"]] if ck["id"] is not None else "", "pending": pend}
 
 
@@ -270,7 +273,12 @@ def run_history(seed, prop, model, rep, length):
         bi = ei = None
         if rng.chance(1, 4) and len(h.shas) > 1:
             bi, ei = rng.below(len(h.shas)), rng.below(len(h.shas))
+            if rng.chance(1, 3):
+                ei = len(h.shas) - 1
             begin, end = h.shas[bi], h.shas[ei]
+            if ei == len(h.shas) - 1 and r.git("rev-parse", "HEAD").strip() == end and rng.chance(1, 2):
+                end = "HEAD"          # the same commit, spelled symbolically
+                rep.count("query_end_spelled_HEAD")
         rc, j, err = h.analyze_changes(begin, end)
         rep.evaluations += 1
         rep.count("query_range" if begin else "query")
@@ -304,6 +312,13 @@ def run_history(seed, prop, model, rep, length):
                     bulked = True
                     h.op_bulk(rng.range(90, 260))
                     rep.count("bulk_writes")
+                    if rng.chance(1, 2):
+                        # tracked: the names come back through `git diff` (several pipe reads long)
+                        h.op_addall()
+                        h.op_commit()
+                        rep.count("bulk_committed")
+                        if do_query(step):
+                            return
                 else:
                     h.op_write()
             elif k < 38:
@@ -383,12 +398,12 @@ def run_history(seed, prop, model, rep, length):
                     if rng.chance(2, 3):
                         kind = rng.below(3)
                         if kind == 0:
-                            p = h.op_write(h.pick_new_path())
+                            p = h.op_write(h.pick_new_path(), allow_empty=False)
                         elif kind == 1 and h.existing_files():
-                            p = h.op_write(rng.pick(h.existing_files()))
+                            p = h.op_write(rng.pick(h.existing_files()), allow_empty=False)
                         else:
                             committed = [q for q in h.existing_files() if q in h.tree_of("HEAD")]
-                            p = h.op_delete(rng.pick(committed)) if committed else h.op_write(h.pick_new_path())
+                            p = h.op_delete(rng.pick(committed)) if committed else h.op_write(h.pick_new_path(), allow_empty=False)
                         if p.endswith(".log") and p not in h.index_paths():
                             expect_t = []
                         else:
@@ -451,14 +466,16 @@ def run_history(seed, prop, model, rep, length):
                 if h.show() is not None:
                     if fail("C19", "checkpoint show succeeds after the checkpoint was deleted"):
                         return
-                rc2, j2, out2, err2 = r.mono("analyze")
+                # --begin / --end are only consulted when a checkpoint exists
+                extra = ["-b", rng.pick(h.shas)] if rng.chance(1, 2) else []
+                rc2, j2, out2, err2 = r.mono("analyze", *extra)
                 allt = sorted(t["path"] for t in TARGETS)
                 if rc2 != 0 or j2.get("checkpointed") is not False or sorted(j2.get("targets", [])) != allt:
                     if fail("C19", "without a checkpoint analyze does not report every target", got=j2):
                         return
                 if rng.chance(1, 3):
                     r.clear_traces()
-                    rc3, j3, out3, err3 = r.mono("run", "-c", "build")
+                    rc3, j3, out3, err3 = r.mono("run", "-c", "build", *extra)
                     started = sorted(t["target"] for t in r.traces())
                     if rc3 != 0 or started != allt:
                         if fail("C19", "without a checkpoint run does not cover every target", started=started):
@@ -482,6 +499,60 @@ def subprocess_out_delete(r):
     return r.mono("out", "delete", "--all")
 
 
+def huge_pending_case(seed, prop, rep):
+    """thousands of uncommitted files with long names recorded by `update --pending`: the stored
+    checkpoint is more than a mebibyte; show returns exactly what update returned, nothing is
+    flagged, and the checkpoint can still be deleted"""
+    rng = scen.Rng(seed)
+    r = scen.Repo(TARGETS, git=True)
+    case = {"seed": seed, "prop": prop, "mode": "huge_pending"}
+    try:
+        for t in TARGETS:
+            r.install(t["path"], "build")
+        r.commit_all("initial")
+        n = rng.range(4200, 5200)
+        long_dir = "generated-" + "v" * 150
+        for t in TARGETS[:2]:
+            os.makedirs(os.path.join(r.dir, t["path"], long_dir), exist_ok=True)
+        for i in range(n):
+            t = TARGETS[i % 2]["path"]
+            with open(os.path.join(r.dir, t, long_dir, "file-%05d-%s.txt" % (i, "w" * 40)), "w") as f:
+                f.write("g %d\n" % i)
+        rc, j, out, err = r.mono("checkpoint", "update", "--pending", timeout=180)
+        rep.evaluations += 1
+        rep.count("huge_pending_cases")
+        if rc != 0 or j is None:
+            if prop == "C19":
+                rep.oracle_fail({"kind": "checkpoint update failed", "case": case, "rc": rc, "stderr": err[-300:]})
+            return
+        returned = real_ck(j["checkpoint"])
+        rep.count("huge_pending_entries", len(returned["pending"] or {}))
+        rc2, j2, out2, err2 = r.mono("checkpoint", "show", timeout=180)
+        shown = real_ck((j2 or {}).get("checkpoint")) if rc2 == 0 else None
+        if shown != returned:
+            if prop == "C19":
+                rep.oracle_fail({"kind": "checkpoint show is not what the update returned", "case": case, "show_rc": rc2,
+                                 "stderr": err2[-300:], "pending_entries": len(returned["pending"] or {}), "stored_bytes_about": len(out)})
+            else:
+                rep.count("violations_of_C19")
+            return
+        rc3, j3, out3, err3 = r.mono("analyze", "--changes", timeout=180)
+        if rc3 != 0 or j3 is None or j3.get("targets") or j3.get("changes"):
+            if prop == "C07":
+                rep.oracle_fail({"kind": "something is still changed right after checkpoint update --pending", "case": case, "rc": rc3,
+                                 "targets": (j3 or {}).get("targets"), "stderr": err3[-300:]})
+            else:
+                rep.count("violations_of_C07")
+            return
+        rc4, j4, out4, err4 = r.mono("checkpoint", "delete")
+        if rc4 != 0 and prop == "C19":
+            rep.oracle_fail({"kind": "checkpoint delete failed", "case": case, "rc": rc4, "stderr": err4[-300:]})
+            return
+        rep.nontrivial_case(case)
+    finally:
+        r.done()
+
+
 def main():
     args = scen.parse_args(sys.argv)
     prop = args["prop"]
@@ -498,6 +569,8 @@ def main():
     for _ in range(n):
         cases.append((rng.next(), rng.range(10, 30) if args["tier"] == "quick" else rng.range(15, 80)))
     scen.run_cases(lambda c: run_history(c[0], prop, model, rep, c[1]), cases, rep, 12)
+    if args["budget"] > 0 and prop in ("C19", "C07"):
+        scen.run_cases(lambda sd: huge_pending_case(sd, prop, rep), [rng.next() for _ in range(3 if args["tier"] == "thorough" else 1)], rep, 2)
     scen.finish(args, rep, t0, model)
 
 
